@@ -53,7 +53,7 @@ ElN(nm, at, ld, ks, tr) == [k |-> "el", name |-> nm, attrs |-> at, lead |-> ld, 
 IfN(brs, els, he)   == [k |-> "if", brs |-> brs, els |-> els, haselse |-> he]     \* brs: <<[c, body]>>
 ForN(l, body)       == [k |-> "for", l |-> l, body |-> body]
 SwitchN(cases)      == [k |-> "switch", cases |-> cases]                           \* <<[key, body]>>
-CallN(c, af)        == [k |-> "call", comp |-> c, after |-> af]   \* after # "v" is only spellable with the legacy {! c() } syntax
+CallN(c, af)        == [k |-> "call", comp |-> c, after |-> af]   \* after = "": only spellable with the legacy {! c() } syntax; after = "h": `@c() w1`, `@c() <b>` or legacy
 CallBN(c, body, af) == [k |-> "callb", comp |-> c, body |-> body, after |-> af]
 SlotN(af)           == [k |-> "slot", after |-> af]
 GoCodeN             == [k |-> "gocode"]
@@ -70,7 +70,7 @@ WsAfter(nd) == IF nd.k = "text" /\ nd.tr = "" /\ "sp" \in DOMAIN nd /\ nd.sp THE
                ELSE IF Trailer(nd) THEN nd.tr
                ELSE IF nd.k \in {"slot", "hcomment", "mcomment", "raw", "call", "callb"} THEN nd.after
                ELSE "v"                       \* control flow, calls, Go code, Go comments, doctype end their line
-LineStart(k) == k \in {"if", "for", "switch", "call", "gocode", "gocodeml", "gcomment", "doctype"}
+LineStart(k) == k \in {"if", "for", "switch", "gocode", "gocodeml", "gcomment", "doctype"}
 
 \* whitespace in front of the next node to be added to a frame
 WsBefore(fr) == IF fr.items = <<>> THEN fr.lead ELSE WsAfter(fr.items[Len(fr.items)])
@@ -80,7 +80,7 @@ LastKind(fr) == IF fr.items = <<>> THEN "none" ELSE fr.items[Len(fr.items)].k
 CanAdd(fr, k) ==
     /\ LineStart(k) => WsBefore(fr) = "v"
     /\ (k = "text" /\ LastKind(fr) = "text") => WsBefore(fr) = "v"      \* two texts on one line are one text
-    /\ (k \in {"mcomment", "callb"} /\ LastKind(fr) = "text") => WsBefore(fr) = "v"  \* a text runs up to the next `<`, `{` or line break
+    /\ (k \in {"mcomment", "call", "callb"} /\ LastKind(fr) = "text") => WsBefore(fr) = "v"  \* a text runs up to the next `<`, `{` or line break
     /\ k = "doctype" => (fr.k = "root" /\ fr.items = <<>>)
 
 -----------------------------------------------------------------------------
